@@ -1,7 +1,7 @@
 (* C01 — Generated parsers recognise exactly the PEG language of the grammar.
    Only statements, `exact`, `Check` pins and Print Assumptions live here. *)
 From PegV Require Import Utf8 Utf8Facts State Terminals TerminalsSpec TerminalsOk Syntax Fields
-  FieldsFacts Literals LiteralsFacts Model Spec Sim Conform MemoEq MemoSpec Extracted.
+  FieldsFacts Literals LiteralsFacts Model Spec Sim Conform MemoEq MemoSpec Extracted WellFormed Termination TermModel GrammarEbnf.
 
 (* side conditions on the decision points found in the current source *)
 Theorem C01_facts :
@@ -146,3 +146,69 @@ Proof.
            eq_refl eq_refl eq_refl Hp NoLR n m rule_name cs u Hs).
 Qed.
 Print Assumptions C01_memoized.
+
+(* ---- "and the parse terminates" -------------------------------------------
+   Well-formedness in the sense of the quantifier (no left recursion outside
+   @leftrec rules, no closure whose body can succeed without consuming) is a
+   checkable certificate (WellFormed.wf_check: a nullable set closed under the
+   rules, and a rank that strictly decreases from every rule / include to
+   everything it can reach before a character is consumed).  For EVERY grammar
+   that passes the check, every family of oracles, every rule and every input:
+   the PEG specification returns, and its result no longer depends on the
+   recursion bound once the bound is large enough. *)
+Theorem C01_terminates :
+  forall (shk : shooks) (g : grammar) (nul : name -> bool) (rk : WellFormed.runit -> nat),
+    WellFormed.wf_check g nul rk = true ->
+    forall rule_name cs,
+      exists F r, r <> SFuel /\
+        forall f, F <= f -> s_parse Extracted.fcfg shk g true f rule_name cs = r.
+Proof. intros shk g nul rk W. exact (Termination.spec_terminates Extracted.fcfg shk g true nul rk W). Qed.
+Print Assumptions C01_terminates.
+
+(* ... and so does the model of the generated parser (plain grammars; grammars
+   with @memoize rules: C01_memoized relates them to the same specification) *)
+Theorem C01_model_terminates :
+  forall (ustate : Type) (hk : hooks ustate) (shk : shooks) (g : grammar),
+    pure_hooks ustate hk shk -> plain_grammar g ->
+    forall nul rk, WellFormed.wf_check g nul rk = true ->
+    forall rule_name cs u, all_scalar cs ->
+    exists F, forall f, F <= f ->
+      fst (m_parse ustate Extracted.scfg Extracted.tcfg Extracted.fcfg Extracted.rcfg hk g
+                   f rule_name (encode_str cs) u) <> MFuel /\
+      s_parse Extracted.fcfg shk g true f rule_name cs <> SFuel.
+Proof.
+  intros ustate hk shk g Hp Hg nul rk W.
+  exact (TermModel.model_terminates ustate Extracted.scfg Extracted.fcfg Extracted.rcfg hk shk g
+           eq_refl eq_refl eq_refl Hp Hg nul rk W).
+Qed.
+Print Assumptions C01_model_terminates.
+
+(* the certificate is computed (WellFormed.analyse) and then checked: *)
+Theorem C01_well_formed_terminates :
+  forall (shk : shooks) (g : grammar), WellFormed.well_formed g = true ->
+    forall rule_name cs,
+      exists F r, r <> SFuel /\
+        forall f, F <= f -> s_parse Extracted.fcfg shk g true f rule_name cs = r.
+Proof. intros shk g W. exact (TermModel.well_formed_terminates Extracted.fcfg shk g true W). Qed.
+Print Assumptions C01_well_formed_terminates.
+
+(* non-vacuity: the grammar of grammars (AST regenerated from /repo/grammar.ebnf
+   on every run) passes the check, so the front end returns on every text *)
+Theorem C01_frontend_well_formed : WellFormed.well_formed GrammarEbnf.g = true.
+Proof. vm_compute. reflexivity. Qed.
+Print Assumptions C01_frontend_well_formed.
+
+(* the two ways out of the quantifier really diverge in the specification *)
+Theorem C01_left_recursion_diverges :
+  WellFormed.well_formed TermModel.g_leftrec = false /\
+  forall fcfg shk insens f cs, s_parse fcfg shk TermModel.g_leftrec insens f TermModel.nmA cs = SFuel.
+Proof. split; [exact TermModel.leftrec_not_well_formed|]. intros. apply TermModel.leftrec_example_diverges. Qed.
+Print Assumptions C01_left_recursion_diverges.
+
+Theorem C01_nullable_closure_diverges :
+  WellFormed.well_formed TermModel.g_nullclo = false /\
+  forall fcfg shk insens f, s_parse fcfg shk TermModel.g_nullclo insens f TermModel.nmA [98%N] = SFuel.
+Proof. split; [exact TermModel.nullclo_not_well_formed|]. intros. apply TermModel.nullclo_example_diverges. Qed.
+Print Assumptions C01_nullable_closure_diverges.
+
+Check WellFormed.wf_check : grammar -> (name -> bool) -> (WellFormed.runit -> nat) -> bool.
